@@ -1,6 +1,7 @@
 package main
 
 import (
+	"bytes"
 	"database/sql"
 	"errors"
 	"fmt"
@@ -161,6 +162,8 @@ type SentMsg struct {
 	Outcome string // "success" | "false" | "error" | "full"
 	TaskId  string
 	Counter int
+	// the slices as handed to the transport (transports queue a message and send it later)
+	refData, refBody []byte
 }
 
 // ---------------------------------------------------------------------------
@@ -202,6 +205,7 @@ type Sim struct {
 	crashSide    string
 	crashPending bool
 
+	closed   bool
 	draining bool     // the server is being dismantled: nothing that happens now is part of the run
 	ilsig    []string // commit order signature parts
 	crashes  int
@@ -270,6 +274,21 @@ func (s *Sim) dismantle(sys *system.System, a *advAIO, ap api.API) {
 }
 
 func (s *Sim) Close() {
+	if !s.closed {
+		s.closed = true
+		// a message handed to a transport is the transport's: what was handed over for one task must not change when
+		// the next one is processed
+		for _, sm := range s.sent {
+			if sm.Plugin == "" {
+				continue
+			}
+			s.mon.hit("send.retained-message-compared")
+			if !bytes.Equal(sm.refBody, sm.Body) || !bytes.Equal(sm.refData, sm.Data) {
+				s.mon.violate("C08,C19,C20", "dispatch:message-changed-after-handoff", fmt.Sprintf("the message for task %s/%d was handed to the %s transport as %s; after later hand-offs the same message reads %s", sm.TaskId, sm.Counter, sm.Plugin, clipStr(string(sm.Body), 300), clipStr(string(sm.refBody), 300)))
+				break
+			}
+		}
+	}
 	s.dismantle(s.sys, s.aio, s.api)
 	if s.store != nil {
 		_ = s.store.Stop()
@@ -820,7 +839,7 @@ func (c *capPlugin) Stop() error              { return nil }
 func (c *capPlugin) Enqueue(m *aio.Message) bool {
 	s := c.sim
 	pol := s.pol
-	msg := &SentMsg{Tick: s.now, Ev: s.nextEv(), Plugin: c.typ, Type: string(m.Type), Data: append([]byte{}, m.Data...), Body: append([]byte{}, m.Body...)}
+	msg := &SentMsg{Tick: s.now, Ev: s.nextEv(), Plugin: c.typ, Type: string(m.Type), Data: append([]byte{}, m.Data...), Body: append([]byte{}, m.Body...), refData: m.Data, refBody: m.Body}
 	s.sent = append(s.sent, msg)
 	x := s.r.Float64()
 	switch {
